@@ -1779,6 +1779,28 @@ class Exec:
                 s2 = st.clone(); s2.pc.append(ULT(sl.start, sl.end))
                 outs.append((s2, 'ret', Enum('Some', {0: ElemPtr(sl.arr, sl.start if ml.group(1) == 'first' else sl.end - 1)})))
             return outs
+        mres = re.match(r'^Result::<.*>::(map|map_err|ok|err|is_ok|is_err|and_then)(::<.*)?$', c)
+        if mres and isinstance(args[0], Enum) and args[0].variant in ('Ok', 'Err'):
+            op, r0 = mres.group(1), args[0]
+            isok = r0.variant == 'Ok'
+            if op in ('is_ok', 'is_err'):
+                return R(z3.BoolVal(isok == (op == 'is_ok')))
+            if op == 'ok':
+                return R(Enum('Some', {0: r0.fields[0]}) if isok else Enum('None', {}))
+            if op == 'err':
+                return R(Enum('None', {}) if isok else Enum('Some', {0: r0.fields[0]}))
+            if (op in ('map', 'and_then')) != isok:
+                return R(r0)
+            cc = st.new_cell(args[1])
+            outs = []
+            for (s1, k, v) in s.call_closure2(st, cc, [r0.fields[0]], where):
+                if k != 'ret':
+                    outs.append((s1, k, None))
+                elif op == 'and_then':
+                    outs.append((s1, 'ret', v))
+                else:
+                    outs.append((s1, 'ret', Enum('Ok' if op == 'map' else 'Err', {0: v})))
+            return outs
         mo = re.match(r'^Option::<.*>::(map|is_some_and|is_none_or|filter|map_or|and_then|unwrap_or_else|ok_or|unwrap_or)(::<.*)?$', c)
         if mo and isinstance(args[0], Enum) and not (mo.group(1) == 'unwrap_or' and 'usize' in c):
             op, o = mo.group(1), args[0]
@@ -1896,8 +1918,19 @@ class Exec:
                 return R(arr)                     # the same object, reinterpreted
             st.calls += 1                         # bitwise copy: a new object that owns nothing yet
             return R(Arr('Copy%d' % st.calls, arr.len))
-        if re.search(r'(^|::)read::<GenericArray<', c) or re.search(r'(^|::)read::<\w+>$', c) and False:
+        if re.search(r'(^|::)read::<GenericArray<T, N>>$', c):
+            # bitwise move of a whole array out of a place that keeps its bits (ManuallyDrop / about to be forgotten): the result IS the same
+            # object as far as ownership goes - if both the source's owner and the new owner drop it, the ledger reports the double drop
+            a = args[0]
+            arr = a.arr if isinstance(a, (ArrRef, ElemPtr)) else st.get(a.cell, a.path)
+            if isinstance(arr, Arr):
+                st.events.append('ptr::read of the whole array %s' % arr.name)
+                return R(arr)
             raise NotImplementedError('block read ' + c)
+        if re.search(r'(^|::)read::<GenericArray<', c):
+            raise NotImplementedError('block read ' + c)
+        if re.match(r'^MaybeUninit::<T>::assume_init_drop$', c) and isinstance(args[0], ElemPtr):
+            return s.drop_slice(st, Slice(args[0].arr, args[0].idx, args[0].idx + 1), where)
         if re.search(r'(^|::)write::<T>$', c):
             p, v = args
             s.ev_write(st, p.arr, p.idx, v, where)
